@@ -17,6 +17,8 @@ TRUSTED = ['rustc MIR of the current tree', 'container-method preservation table
 
 def run(ctx, rep):
     facts = ctx.facts()
+    import fixtures
+    fixtures.run_controls(rep, ['E1'], lambda: ctx.reload())
     rep.rule('E1', e1_typestate.__doc__.strip().split('\n')[0])
     e1_typestate.run_type(facts, rep, specs.LC, 'Lc', 25)
     e1_typestate.run_type(facts, rep, specs.MDEG, 'MultiDeg', 10)
